@@ -52,6 +52,7 @@ mod lsp {
         pub notes: Vec<Value>,
         /// a request went unanswered: do not wait for this process again
         dead: bool,
+        stopped: bool,
     }
 
     fn read_message(r: &mut impl BufRead) -> Option<Value> {
@@ -75,7 +76,10 @@ mod lsp {
     }
 
     impl Lsp {
-        pub fn start(bin: &str, pull: bool) -> Result<Lsp, String> {
+        /// `root`: a workspace folder (pull mode only); the call returns after the background
+        /// indexing pass that `initialized` starts has finished (the server then asks the client
+        /// to refresh diagnostics).
+        pub fn start(bin: &str, pull: bool, root: Option<&str>) -> Result<Lsp, String> {
             let mut child = Command::new(bin)
                 .stdin(Stdio::piped())
                 .stdout(Stdio::piped())
@@ -93,16 +97,53 @@ mod lsp {
                     }
                 }
             });
-            let mut l = Lsp { child, stdin: Some(stdin), rx, next_id: 0, notes: Vec::new(), dead: false };
+            let mut l = Lsp { child, stdin: Some(stdin), rx, next_id: 0, notes: Vec::new(), dead: false, stopped: false };
             let caps = if pull {
                 json!({"workspace": {"diagnostic": {"refreshSupport": true}},
                        "textDocument": {"diagnostic": {}}})
             } else {
                 json!({})
             };
-            l.request("initialize", json!({"processId": null, "rootUri": null, "capabilities": caps}))?;
+            let root_uri = root.map(|r| Value::String(format!("file://{r}"))).unwrap_or(Value::Null);
+            l.request("initialize", json!({"processId": null, "rootUri": root_uri, "capabilities": caps}))?;
             l.notify("initialized", json!({}))?;
+            if root.is_some() {
+                l.wait_for("workspace/diagnostic/refresh")?;
+            }
             Ok(l)
+        }
+
+        fn incoming(&mut self, m: Value) -> Result<(), String> {
+            if let Some(rid) = m.get("id") {
+                // server -> client request: answer null
+                let reply = json!({"jsonrpc": "2.0", "id": rid.clone(), "result": null});
+                self.send(&reply)?;
+            }
+            self.notes.push(m);
+            Ok(())
+        }
+
+        /// Read until the server sends a request or notification `method`.
+        pub fn wait_for(&mut self, method: &str) -> Result<(), String> {
+            loop {
+                if self.dead {
+                    return Err(format!("waiting for {method}: server is dead"));
+                }
+                let m = match self.rx.recv_timeout(Duration::from_secs(REQUEST_TIMEOUT_S)) {
+                    Ok(m) => m,
+                    Err(e) => {
+                        self.dead = true;
+                        return Err(format!("waiting for {method}: {e}"));
+                    }
+                };
+                let hit = m.get("method").and_then(Value::as_str) == Some(method);
+                if m.get("method").is_some() {
+                    self.incoming(m)?;
+                }
+                if hit {
+                    return Ok(());
+                }
+            }
         }
 
         fn send(&mut self, v: &Value) -> Result<(), String> {
@@ -135,12 +176,7 @@ mod lsp {
                     }
                 };
                 if m.get("method").is_some() {
-                    if let Some(rid) = m.get("id") {
-                        // server -> client request: answer null
-                        let reply = json!({"jsonrpc": "2.0", "id": rid.clone(), "result": null});
-                        self.send(&reply)?;
-                    }
-                    self.notes.push(m);
+                    self.incoming(m)?;
                     continue;
                 }
                 if m.get("id").and_then(Value::as_i64) == Some(id) {
@@ -152,7 +188,12 @@ mod lsp {
             }
         }
 
-        pub fn stop(mut self) {
+        /// Orderly end of the session (idempotent).
+        pub fn shutdown(&mut self) {
+            if self.stopped {
+                return;
+            }
+            self.stopped = true;
             if self.dead {
                 let _ = self.child.kill();
                 let _ = self.child.wait();
@@ -170,6 +211,10 @@ mod lsp {
             }
             let _ = self.child.kill();
             let _ = self.child.wait();
+        }
+
+        pub fn stop(mut self) {
+            self.shutdown();
         }
     }
 }
@@ -726,7 +771,31 @@ fn gen_change(r: &mut Rng, ed: &Editor, cat: Cat, eol: Eol, allow_invalid: bool)
 struct Fixed {
     name: &'static str,
     text: &'static str,
-    notes: Vec<Vec<Chg>>,
+    /// `None`: no workspace (virtual URI).  `Some(d)`: the document is `main.st` in a temporary
+    /// workspace folder and `d` is the file's content when the server starts (`None` = no file).
+    disk: Option<Option<&'static str>>,
+    steps: Vec<Step>,
+}
+
+/// One step of a history.
+#[derive(Clone, Debug)]
+enum Step {
+    /// one `didChange` notification
+    Change(Vec<Chg>),
+    /// the editor saves: buffer -> disk, `didSave`, and the watcher's CHANGED/CREATED event
+    Save,
+    /// somebody else rewrites the file; the watcher reports CREATED/CHANGED
+    Rewrite(String),
+    /// somebody else deletes the file; the watcher reports DELETED
+    Delete,
+    /// a CHANGED event although the file cannot be read
+    Spurious,
+    Close,
+    Open(String),
+}
+
+fn notes(v: Vec<Vec<Chg>>) -> Vec<Step> {
+    v.into_iter().map(Step::Change).collect()
 }
 
 fn rg(sl: u32, sc: u32, el: u32, ec: u32, t: &str) -> Chg {
@@ -739,39 +808,84 @@ fn corpus() -> Vec<Fixed> {
         Fixed {
             name: "witness-emoji-comment",
             text: "PROGRAM P\nVAR x : INT; END_VAR\n(* 😀 *) x := 1;\nEND_PROGRAM\n",
-            notes: vec![vec![rg(2, 14, 2, 15, "2")], vec![rg(2, 14, 2, 15, "3"), rg(2, 15, 2, 15, "4")]],
+            disk: None, steps: notes(vec![vec![rg(2, 14, 2, 15, "2")], vec![rg(2, 14, 2, 15, "3"), rg(2, 15, 2, 15, "4")]]),
         },
         Fixed {
             name: "witness-emoji-string",
             text: "PROGRAM P\nVAR s : STRING; x : INT; END_VAR\ns := '😀'; x := 1;\nEND_PROGRAM\n",
-            notes: vec![vec![rg(2, 16, 2, 17, "2")]],
+            disk: None, steps: notes(vec![vec![rg(2, 16, 2, 17, "2")]]),
         },
-        Fixed { name: "design-emoji-x", text: "😀x", notes: vec![vec![rg(0, 2, 0, 2, "y")], vec![rg(0, 4, 0, 4, "z")]] },
+        Fixed { name: "design-emoji-x", text: "😀x", disk: None, steps: notes(vec![vec![rg(0, 2, 0, 2, "y")], vec![rg(0, 4, 0, 4, "z")]]) },
         // inside the pair: the server resolves to the next boundary
-        Fixed { name: "inside-pair", text: "😀x", notes: vec![vec![rg(0, 1, 0, 1, "y")]] },
+        Fixed { name: "inside-pair", text: "😀x", disk: None, steps: notes(vec![vec![rg(0, 1, 0, 1, "y")]]) },
         // BMP non-ASCII: UTF-8 length differs, UTF-16 does not
         Fixed {
             name: "latin1-cjk",
             text: "x := 'üé'; y := 1;\r\n(* 漢字 *) z := 2;\r\n",
-            notes: vec![vec![rg(0, 16, 0, 17, "7")], vec![rg(1, 14, 1, 15, "8")], vec![rg(0, 18, 1, 0, "")]],
+            disk: None, steps: notes(vec![vec![rg(0, 16, 0, 17, "7")], vec![rg(1, 14, 1, 15, "8")], vec![rg(0, 18, 1, 0, "")]]),
         },
         // several changes in one notification, positions relative to the evolving text
         Fixed {
             name: "multi-change",
             text: "a😀b\nc𝒳d\n",
-            notes: vec![vec![rg(0, 3, 0, 3, "🚀"), rg(0, 5, 0, 6, ""), rg(1, 3, 1, 4, "D"), rg(0, 0, 1, 0, "")]],
+            disk: None, steps: notes(vec![vec![rg(0, 3, 0, 3, "🚀"), rg(0, 5, 0, 6, ""), rg(1, 3, 1, 4, "D"), rg(0, 0, 1, 0, "")]]),
         },
         // end of document without final newline; then a line that does not exist
         Fixed {
             name: "append-and-beyond",
             text: "x",
-            notes: vec![vec![rg(0, 1, 0, 1, "\ny")], vec![rg(1, 1, 1, 1, "!")], vec![rg(2, 0, 2, 0, "never")], vec![rg(1, 2, 1, 2, "?")]],
+            disk: None, steps: notes(vec![vec![rg(0, 1, 0, 1, "\ny")], vec![rg(1, 1, 1, 1, "!")], vec![rg(2, 0, 2, 0, "never")], vec![rg(1, 2, 1, 2, "?")]]),
         },
         // column beyond the end of a CRLF line: the server clamps to the `\n`, i.e. after the `\r`
-        Fixed { name: "crlf-clamp", text: "ab\r\ncd\r\n", notes: vec![vec![rg(0, 9, 0, 9, "X")]] },
+        Fixed { name: "crlf-clamp", text: "ab\r\ncd\r\n", disk: None, steps: notes(vec![vec![rg(0, 9, 0, 9, "X")]]) },
         // KNOWN FINDING (lone CR is a line end for the editor, not for the server)
-        Fixed { name: "lone-cr", text: "a\rb", notes: vec![vec![rg(1, 0, 1, 0, "X")]] },
-        Fixed { name: "lone-cr-2", text: "a\rb\nc", notes: vec![vec![rg(1, 1, 1, 1, "X")]] },
+        Fixed { name: "lone-cr", text: "a\rb", disk: None, steps: notes(vec![vec![rg(1, 0, 1, 0, "X")]]) },
+        Fixed { name: "lone-cr-2", text: "a\rb\nc", disk: None, steps: notes(vec![vec![rg(1, 1, 1, 1, "X")]]) },
+        // a dirty open document and a file event for its URI (the editor's buffer stays the truth):
+        // the disk text has an error, the editor fixes it (unsaved), another tool rewrites the file
+        Fixed {
+            name: "disk-event-open-dirty",
+            text: "PROGRAM Main\nVAR\n    x : INT;\nEND_VAR\nx := missing_value;\nEND_PROGRAM\n",
+            disk: Some(Some("PROGRAM Main\nVAR\n    x : INT;\nEND_VAR\nx := missing_value;\nEND_PROGRAM\n")),
+            steps: vec![
+                Step::Change(vec![rg(4, 5, 4, 18, "1")]),
+                Step::Rewrite("PROGRAM Main\nVAR\n    x : INT;\nEND_VAR\nx := other_missing_value + 😀;\nEND_PROGRAM\n".into()),
+            ],
+        },
+        // the same followed by more typing, a save, a close (closed documents take the disk text)
+        Fixed {
+            name: "disk-events-save-close",
+            text: "PROGRAM Main\nVAR x : INT; END_VAR\nx := 1;\nEND_PROGRAM\n",
+            disk: Some(Some("PROGRAM Main\nVAR x : INT; END_VAR\nx := 1;\nEND_PROGRAM\n")),
+            steps: vec![
+                Step::Change(vec![rg(2, 5, 2, 6, "2")]),
+                Step::Rewrite("(* 😀 *)\n".into()),
+                Step::Change(vec![rg(2, 5, 2, 6, "3")]),
+                Step::Save,
+                Step::Spurious,
+                Step::Close,
+                Step::Rewrite("PROGRAM Other\nEND_PROGRAM\n".into()),
+                Step::Delete,
+                Step::Rewrite("PROGRAM Again\nEND_PROGRAM\n".into()),
+                Step::Open("PROGRAM Again\nEND_PROGRAM\n".into()),
+                Step::Change(vec![rg(0, 13, 0, 13, "2")]),
+            ],
+        },
+        // a new file that exists only in the editor, then on disk
+        Fixed {
+            name: "unsaved-new-file",
+            text: "PROGRAM New\nEND_PROGRAM\n",
+            disk: Some(None),
+            steps: vec![Step::Change(vec![rg(0, 11, 0, 11, "er")]), Step::Save, Step::Change(vec![rg(0, 13, 0, 13, "!")]),
+                        Step::Rewrite("PROGRAM Elsewhere\nEND_PROGRAM\n".into())],
+        },
+        // KNOWN FINDING: the file is deleted while the document is open; the server drops the document
+        Fixed {
+            name: "deleted-while-open",
+            text: "PROGRAM Main\nEND_PROGRAM\n",
+            disk: Some(Some("PROGRAM Main\nEND_PROGRAM\n")),
+            steps: vec![Step::Change(vec![rg(0, 12, 0, 12, "2")]), Step::Delete, Step::Change(vec![rg(0, 13, 0, 13, "3")])],
+        },
     ]
 }
 
@@ -926,7 +1040,8 @@ fn ask_all(l: &mut lsp::Lsp, uri: &str, pull: bool) -> Result<Answers, String> {
 
 fn short(v: &Value) -> String {
     let s = v.to_string();
-    hex(s.as_bytes().get(..s.len().min(300)).unwrap_or(s.as_bytes()))
+    let cap = if std::env::var("C14_FULL").is_ok() { usize::MAX } else { 300 };
+    hex(s.as_bytes().get(..s.len().min(cap)).unwrap_or(s.as_bytes()))
 }
 
 fn is_ident_like(s: &str) -> bool {
@@ -1204,8 +1319,22 @@ struct Plan {
     version: i32,
     pull: bool,
     burst: bool,
-    fixed: Option<Vec<Vec<Chg>>>,
+    fixed: Option<Vec<Step>>,
     notes: u64,
+    /// file-backed document in a temporary workspace folder: the initial content of the file
+    disk: Option<Option<String>>,
+}
+
+/// A second program that calls into the sibling files of the workspace, so that answers about the
+/// open document depend on what the server believes the other files contain.
+const USES_LIB: &str = "PROGRAM UsesLib\nVAR r : INT; END_VAR\nr := LibFn0(1) + LibFn1(2);\nEND_PROGRAM\n";
+
+fn sibling_text(j: usize, variant: u64) -> String {
+    match variant % 3 {
+        0 => format!("FUNCTION LibFn{j} : INT\nVAR_INPUT a : INT; END_VAR\nLibFn{j} := a + {variant};\nEND_FUNCTION\n"),
+        1 => format!("(* 😀 *) FUNCTION LibFn{j} : INT\nVAR_INPUT a : INT; END_VAR\nLibFn{j} := a;\nEND_FUNCTION\n"),
+        _ => format!("FUNCTION LibOther{j}_{variant} : INT\nVAR_INPUT a : INT; b : INT; END_VAR\nLibOther{j}_{variant} := a;\nEND_FUNCTION\n"),
+    }
 }
 
 fn plan_case(seed: u64, n: u64, max_notes: u64) -> (Plan, Rng) {
@@ -1218,6 +1347,9 @@ fn plan_case(seed: u64, n: u64, max_notes: u64) -> (Plan, Rng) {
         if lone {
             tags.push("lonecr".into());
         }
+        if f.disk.is_some() {
+            tags.push("workspace".into());
+        }
         let plan = Plan {
             tags,
             cat: Cat::Mixed,
@@ -1226,8 +1358,9 @@ fn plan_case(seed: u64, n: u64, max_notes: u64) -> (Plan, Rng) {
             version: 1,
             pull: true,
             burst: false,
-            fixed: Some(f.notes.clone()),
-            notes: f.notes.len() as u64,
+            fixed: Some(f.steps.clone()),
+            notes: f.steps.len() as u64,
+            disk: f.disk.map(|d| d.map(str::to_string)),
         };
         return (plan, r);
     }
@@ -1239,20 +1372,37 @@ fn plan_case(seed: u64, n: u64, max_notes: u64) -> (Plan, Rng) {
         _ => Eol::Lf,
     };
     let mut kind: &'static str = "";
-    let text = gen_text(&mut r, cat, eol, &mut kind);
+    let mut text = gen_text(&mut r, cat, eol, &mut kind);
     let mut tags = vec![format!("cat-{cat:?}").to_lowercase(), format!("eol-{eol:?}").to_lowercase(), kind.to_string()];
     if eol == Eol::LoneCr {
         tags.push("lonecr".into());
     }
-    let pull = r.chance(4, 5);
-    let burst = r.chance(1, 5);
+    let workspace = r.chance(7, 20);
+    let pull = workspace || r.chance(4, 5);
+    let burst = !workspace && r.chance(1, 5);
     tags.push(if pull { "mode-pull".into() } else { "mode-push".into() });
     if burst {
         tags.push("burst".into());
     }
+    let mut disk = None;
+    if workspace {
+        tags.push("workspace".into());
+        if r.chance(2, 3) && eol != Eol::LoneCr {
+            text.push_str(USES_LIB);
+        }
+        // the file on disk: what the editor opens, an older version of it, or nothing (new file)
+        disk = Some(match r.below(6) {
+            0 => None,
+            1 => {
+                let mut k: &'static str = "";
+                Some(gen_text(&mut r, cat, eol, &mut k))
+            }
+            _ => Some(text.clone()),
+        });
+    }
     let version = if r.chance(1, 10) { r.range(-3, 1000) as i32 } else { 1 };
     let notes = 1 + r.below(max_notes);
-    (Plan { tags, cat, eol, text, version, pull, burst, fixed: None, notes }, r)
+    (Plan { tags, cat, eol, text, version, pull, burst, fixed: None, notes, disk }, r)
 }
 
 /// Sessions that ended with a dead or silent server; after a few of them the run stops early (the
@@ -1264,244 +1414,572 @@ fn run_case(bin: &str, seed: u64, n: u64, max_notes: u64) -> CaseOut {
     if TRANSPORT_ERRORS.load(std::sync::atomic::Ordering::SeqCst) >= MAX_TRANSPORT_ERRORS {
         return CaseOut { lines: Vec::new(), stats: vec!["cases-skipped-after-transport-errors:1".into()], error: None };
     }
+    // A session whose server stays SILENT for REQUEST_TIMEOUT_S is run once more from scratch (the
+    // input is deterministic): a silence that does not reproduce is recorded (stat
+    // `sessions-retried-after-timeout`, line `# note retried-after-timeout`) and bounded by the
+    // check, not judged; a silence that reproduces, and any DEAD server (crash, first time), is a
+    // failing input.
+    let mut first_timeout: Option<String> = None;
+    loop {
+        let mut out = attempt_case(bin, seed, n, max_notes);
+        match (&out.error, &first_timeout) {
+            (Some(e), None) if e.contains("timed out") => {
+                first_timeout = Some(e.clone());
+                continue;
+            }
+            _ => {}
+        }
+        if let Some(e) = &first_timeout {
+            out.stats.push("sessions-retried-after-timeout:1".into());
+            let at = out.lines.len().saturating_sub(1);
+            out.lines.insert(at, format!("# note retried-after-timeout {}", hex(e.as_bytes())));
+        }
+        if let Some(e) = &out.error {
+            TRANSPORT_ERRORS.fetch_add(1, std::sync::atomic::Ordering::SeqCst);
+            // a dead or silent server is an observable of the implementation
+            let at = out.lines.len().saturating_sub(1);
+            out.lines.insert(at, format!("# oracle session FAIL {}", hex(e.as_bytes())));
+        }
+        return out;
+    }
+}
+
+fn attempt_case(bin: &str, seed: u64, n: u64, max_notes: u64) -> CaseOut {
     let (plan, mut r) = plan_case(seed, n, max_notes);
     let mut lines = vec![format!("case {n}")];
     let mut stats: Vec<String> = plan.tags.iter().map(|t| format!("{t}:1")).collect();
     for t in &plan.tags {
         lines.push(format!("tag {t}"));
     }
-    let res = session(bin, n, &plan, &mut r, &mut lines, &mut stats);
-    let error = res.err();
-    if let Some(e) = &error {
-        TRANSPORT_ERRORS.fetch_add(1, std::sync::atomic::Ordering::SeqCst);
-        // a dead or silent server is an observable of the implementation
-        lines.push(format!("# oracle session FAIL {}", hex(e.as_bytes())));
+    // the temporary workspace folder of a file-backed case
+    let root = plan.disk.as_ref().map(|_| {
+        let base = std::env::temp_dir().join(format!("c14ws-{}-{seed}-{n}", std::process::id()));
+        let _ = std::fs::remove_dir_all(&base);
+        std::fs::create_dir_all(&base).expect("create workspace");
+        base.canonicalize().expect("canonical workspace path")
+    });
+    let res = session(bin, n, &plan, root.as_deref(), &mut r, &mut lines, &mut stats);
+    if let Some(root) = &root {
+        let _ = std::fs::remove_dir_all(root);
     }
+    let error = res.err();
     lines.push("end".into());
     CaseOut { lines, stats, error }
+}
+
+/// The files of a workspace case as the harness left them on disk.
+struct Ws {
+    root: std::path::PathBuf,
+    main: Option<String>,
+    siblings: Vec<Option<String>>,
+}
+
+impl Ws {
+    fn main_path(&self) -> std::path::PathBuf {
+        self.root.join("main.st")
+    }
+    fn sibling_path(&self, j: usize) -> std::path::PathBuf {
+        self.root.join(format!("lib{j}.st"))
+    }
+    fn sibling_uri(&self, j: usize) -> String {
+        format!("file://{}", self.sibling_path(j).display())
+    }
+    fn write_main(&mut self, text: &str) {
+        std::fs::write(self.main_path(), text).expect("write main.st");
+        self.main = Some(text.to_string());
+    }
+    fn delete_main(&mut self) {
+        let _ = std::fs::remove_file(self.main_path());
+        self.main = None;
+    }
+}
+
+/// Mutable state of one session.
+struct Sess<'a> {
+    l: lsp::Lsp,
+    uri: String,
+    lines: &'a mut Vec<String>,
+    stats: &'a mut Vec<String>,
+    ed: EdState,
+    server: Option<(String, i64)>,
+    /// buffer against which the next change is generated (= editor's while it is defined)
+    gen_buf: Editor,
+    ws: Option<Ws>,
+    lone_cr_seen: bool,
+    deleted_while_open: bool,
+}
+
+impl Sess<'_> {
+    fn observe(&mut self) -> Result<(), String> {
+        self.server = doc_state(&mut self.l, &self.uri)?;
+        self.lines.push(impl_line(&self.server, &self.ed));
+        Ok(())
+    }
+    fn open(&mut self, text: &str, version: i32) -> Result<(), String> {
+        self.l.notify(
+            "textDocument/didOpen",
+            json!({"textDocument": {"uri": self.uri, "languageId": "structured-text", "version": version, "text": text}}),
+        )?;
+        self.lines.push(format!("open {version} {}", hex(text.as_bytes())));
+        self.ed = match self.ed {
+            EdState::Closed => EdState::Open(Editor::from_str(text), version),
+            _ => EdState::Undefined,
+        };
+        self.gen_buf = Editor::from_str(text);
+        self.lone_cr_seen |= self.gen_buf.has_lone_cr();
+        self.observe()
+    }
+    fn close(&mut self) -> Result<(), String> {
+        self.l.notify("textDocument/didClose", json!({"textDocument": {"uri": self.uri}}))?;
+        self.lines.push("close".into());
+        self.ed = match self.ed {
+            EdState::Open(..) => EdState::Closed,
+            _ => EdState::Undefined,
+        };
+        self.stats.push("ev-close:1".into());
+        self.observe()
+    }
+    /// One `didChange`; `quiet`: the state after it is not observed (burst).
+    fn change(&mut self, changes: &[Chg], version: i32, quiet: bool) -> Result<(), String> {
+        self.l.notify(
+            "textDocument/didChange",
+            json!({"textDocument": {"uri": self.uri, "version": version},
+                   "contentChanges": changes.iter().map(Chg::to_json).collect::<Vec<_>>()}),
+        )?;
+        let ops = changes.iter().map(Chg::to_op).collect::<Vec<_>>().join(" ");
+        self.stats.push(format!("changes-per-notification-{}:1", changes.len()));
+        // the guard of the agreement theorems (`Spec.lfChanges`): every intermediate buffer that a
+        // ranged change of this notification addresses, not only the buffer after the notification
+        if let EdState::Open(e, _) = &self.ed {
+            let mut scratch = e.clone();
+            for c in changes {
+                if matches!(c, Chg::Range { .. }) && scratch.has_lone_cr() {
+                    self.lone_cr_seen = true;
+                }
+                if !editor_apply(&mut scratch, std::slice::from_ref(c)) {
+                    break;
+                }
+            }
+        }
+        self.ed = match std::mem::replace(&mut self.ed, EdState::Undefined) {
+            EdState::Open(mut e, _) => {
+                if editor_apply(&mut e, changes) {
+                    EdState::Open(e, version)
+                } else {
+                    EdState::Undefined
+                }
+            }
+            _ => EdState::Undefined,
+        };
+        if let EdState::Open(e, _) = &self.ed {
+            self.lone_cr_seen |= e.has_lone_cr();
+        }
+        if quiet {
+            self.lines.push(format!("chgq {version} {} {ops}", changes.len()).trim_end().to_string());
+            if let EdState::Open(e, _) = &self.ed {
+                self.gen_buf = e.clone();
+            }
+            return Ok(());
+        }
+        self.lines.push(format!("chg {version} {} {ops}", changes.len()).trim_end().to_string());
+        self.observe()?;
+        // next change is generated against the editor's buffer, or, once the editor-side
+        // specification is undefined, against the server's text
+        if let EdState::Open(e, _) = &self.ed {
+            self.gen_buf = e.clone();
+        } else if let Some((t, _)) = &self.server {
+            self.gen_buf = Editor::from_str(t);
+        }
+        Ok(())
+    }
+    fn watched(&mut self, changes: &[(String, u8)]) -> Result<(), String> {
+        let arr: Vec<Value> = changes.iter().map(|(u, t)| json!({"uri": u, "type": t})).collect();
+        self.l.notify("workspace/didChangeWatchedFiles", json!({ "changes": arr }))
+    }
+    /// A change of a sibling file on disk that rides in the same watcher notification.
+    fn sibling_event(&mut self, r: &mut Rng) -> Option<(String, u8)> {
+        let ws = self.ws.as_mut()?;
+        let j = r.below(ws.siblings.len() as u64) as usize;
+        let uri = ws.sibling_uri(j);
+        if ws.siblings[j].is_some() && r.chance(1, 3) {
+            let _ = std::fs::remove_file(ws.sibling_path(j));
+            ws.siblings[j] = None;
+            self.lines.push(format!("# sibling lib{j}.st deleted"));
+            self.stats.push("ev-sibling-deleted:1".into());
+            Some((uri, 3))
+        } else {
+            let existed = ws.siblings[j].is_some();
+            let text = sibling_text(j, r.below(9));
+            std::fs::write(ws.sibling_path(j), &text).expect("write sibling");
+            ws.siblings[j] = Some(text);
+            self.lines.push(format!("# sibling lib{j}.st written"));
+            self.stats.push("ev-sibling-written:1".into());
+            Some((uri, if existed { 2 } else { 1 }))
+        }
+    }
+    /// Somebody rewrites the document's file; the watcher reports it.
+    fn rewrite(&mut self, text: &str, with: Option<(String, u8)>) -> Result<(), String> {
+        let ws = self.ws.as_mut().expect("workspace case");
+        let typ = if ws.main.is_some() { 2 } else { 1 };
+        ws.write_main(text);
+        let mut ev = vec![(self.uri.clone(), typ)];
+        ev.extend(with);
+        self.watched(&ev)?;
+        self.lines.push(format!("wchg {}", hex(text.as_bytes())));
+        self.stats.push("ev-main-rewritten:1".into());
+        if matches!(&self.ed, EdState::Open(e, _) if e.text() != text) {
+            self.stats.push("ev-main-rewritten-while-open-and-different:1".into());
+        }
+        self.observe()
+    }
+    fn delete(&mut self, with: Option<(String, u8)>) -> Result<(), String> {
+        self.ws.as_mut().expect("workspace case").delete_main();
+        let mut ev = vec![(self.uri.clone(), 3)];
+        ev.extend(with);
+        self.watched(&ev)?;
+        self.lines.push("wdel".into());
+        self.stats.push("ev-main-deleted:1".into());
+        if matches!(self.ed, EdState::Open(..)) {
+            self.deleted_while_open = true;
+            self.stats.push("ev-main-deleted-while-open:1".into());
+        }
+        self.observe()
+    }
+    /// A CHANGED event although the file is not there.
+    fn spurious(&mut self) -> Result<(), String> {
+        let ws = self.ws.as_mut().expect("workspace case");
+        if ws.main.is_some() {
+            let text = ws.main.clone().unwrap();
+            self.watched(&[(self.uri.clone(), 2)])?;
+            self.lines.push(format!("wchg {}", hex(text.as_bytes())));
+        } else {
+            self.watched(&[(self.uri.clone(), 2)])?;
+            self.lines.push("wchg !".into());
+        }
+        self.stats.push("ev-main-spurious:1".into());
+        self.observe()
+    }
+    /// The editor saves: buffer -> disk, `didSave`, then (usually) the watcher's event.
+    fn save(&mut self, watcher: bool) -> Result<(), String> {
+        let EdState::Open(e, _) = &self.ed else { return Ok(()) };
+        let text = e.text();
+        let ws = self.ws.as_mut().expect("workspace case");
+        let typ = if ws.main.is_some() { 2 } else { 1 };
+        ws.write_main(&text);
+        self.l.notify("textDocument/didSave", json!({"textDocument": {"uri": self.uri}, "text": text}))?;
+        self.lines.push("save".into());
+        self.stats.push("ev-save:1".into());
+        self.observe()?;
+        if watcher {
+            self.watched(&[(self.uri.clone(), typ)])?;
+            self.lines.push(format!("wchg {}", hex(text.as_bytes())));
+            self.observe()?;
+        }
+        Ok(())
+    }
+    fn token_tie(&mut self, pull: bool, r: &mut Rng) -> Result<(), String> {
+        if let Some((t, _)) = self.server.clone() {
+            let a = ask_all(&mut self.l, &self.uri, pull)?;
+            token_ops(self.lines, self.stats, &t, &a, r);
+        }
+        Ok(())
+    }
 }
 
 fn session(
     bin: &str,
     n: u64,
     plan: &Plan,
+    root: Option<&std::path::Path>,
     r: &mut Rng,
     lines: &mut Vec<String>,
     stats: &mut Vec<String>,
 ) -> Result<(), String> {
-    let uri = format!("file:///c14/case{n}.st");
-    let mut l = lsp::Lsp::start(bin, plan.pull)?;
-    let result = (|| -> Result<(), String> {
-        let mut version = plan.version;
-        let open = |l: &mut lsp::Lsp, text: &str, version: i32| {
-            l.notify(
-                "textDocument/didOpen",
-                json!({"textDocument": {"uri": uri, "languageId": "structured-text", "version": version, "text": text}}),
-            )
-        };
-        open(&mut l, &plan.text, version)?;
-        let mut ed = EdState::Open(Editor::from_str(&plan.text), version);
-        lines.push(format!("open {version} {}", hex(plan.text.as_bytes())));
-        let mut server = doc_state(&mut l, &uri)?;
-        lines.push(impl_line(&server, &ed));
-        // buffer against which the next change is generated (= editor's while it is defined)
-        let mut gen_buf = Editor::from_str(&plan.text);
-        let mut nontrivial = false;
-        let mut astral = false;
-        let mut lone_cr_seen = gen_buf.has_lone_cr();
-
-        let mut after_undefined = 0;
-        for k in 0..plan.notes {
-            // once the editor-side specification is undefined only the model tie is left: two more
-            // notifications (does a rejected change leave the document usable?) and stop
-            if plan.fixed.is_none() && matches!(ed, EdState::Undefined) {
-                after_undefined += 1;
-                if after_undefined > 2 && !plan.burst {
-                    break;
-                }
-            }
-            // close / re-open now and then
-            if plan.fixed.is_none() && r.chance(1, 40) {
-                l.notify("textDocument/didClose", json!({"textDocument": {"uri": uri}}))?;
-                lines.push("close".into());
-                ed = match ed {
-                    EdState::Open(..) => EdState::Closed,
-                    _ => EdState::Undefined,
-                };
-                server = doc_state(&mut l, &uri)?;
-                lines.push(impl_line(&server, &ed));
-                stats.push("ev-close:1".into());
-                if r.chance(7, 8) {
-                    let mut kd: &'static str = "";
-                    let text = if r.bool() { gen_buf.text() } else { gen_text(r, plan.cat, plan.eol, &mut kd) };
-                    version = if r.bool() { 1 } else { version.wrapping_add(1) };
-                    open(&mut l, &text, version)?;
-                    lines.push(format!("open {version} {}", hex(text.as_bytes())));
-                    ed = match ed {
-                        EdState::Closed => EdState::Open(Editor::from_str(&text), version),
-                        _ => EdState::Undefined,
-                    };
-                    gen_buf = Editor::from_str(&text);
-                    lone_cr_seen |= gen_buf.has_lone_cr();
-                    server = doc_state(&mut l, &uri)?;
-                    lines.push(impl_line(&server, &ed));
-                    stats.push("ev-reopen:1".into());
-                } else {
-                    stats.push("ev-change-after-close:1".into());
-                }
-            }
-            // one didChange notification
-            let mut changes: Vec<Chg> = Vec::new();
-            match &plan.fixed {
-                Some(f) => changes = f[k as usize].clone(),
-                None => {
-                    let nch = if r.chance(1, 300) { 0 } else if r.chance(7, 10) { 1 } else { 2 + r.below(3) };
-                    let mut scratch = gen_buf.clone();
-                    for _ in 0..nch {
-                        let (c, validity, kind) = gen_change(r, &scratch, plan.cat, plan.eol, !plan.burst);
-                        stats.push(format!("{kind}:1"));
-                        let stop = validity != Validity::Valid;
-                        if let Chg::Range { sl, sc, .. } = &c {
-                            if validity == Validity::Valid {
-                                if let Some((s, _, _)) = scratch.lines().get(*sl as usize) {
-                                    let before = &scratch.u[*s..*s + *sc as usize];
-                                    if before.iter().any(|&x| x >= 0x80) {
-                                        nontrivial = true;
-                                    }
-                                    if before.iter().any(|&x| (0xD800..0xE000).contains(&x)) {
-                                        astral = true;
-                                    }
-                                }
-                            }
-                        }
-                        let ok = editor_apply(&mut scratch, std::slice::from_ref(&c));
-                        changes.push(c);
-                        if stop || !ok {
-                            break;
-                        }
-                    }
-                }
-            }
-            version = match r.below(12) {
-                0 => version,
-                1 => version.wrapping_add(1 + r.below(1000) as i32),
-                _ => version.wrapping_add(1),
-            };
-            if plan.fixed.is_some() {
-                version = plan.version + 1 + k as i32;
-            }
-            l.notify(
-                "textDocument/didChange",
-                json!({"textDocument": {"uri": uri, "version": version},
-                       "contentChanges": changes.iter().map(Chg::to_json).collect::<Vec<_>>()}),
-            )?;
-            let ops = changes.iter().map(Chg::to_op).collect::<Vec<_>>().join(" ");
-            stats.push(format!("changes-per-notification-{}:1", changes.len()));
-            // editor side
-            ed = match ed {
-                EdState::Open(mut e, _) => {
-                    if editor_apply(&mut e, &changes) {
-                        EdState::Open(e, version)
-                    } else {
-                        EdState::Undefined
-                    }
-                }
-                _ => EdState::Undefined,
-            };
-            if let EdState::Open(e, _) = &ed {
-                lone_cr_seen |= e.has_lone_cr();
-            }
-            if plan.burst && k + 1 < plan.notes {
-                lines.push(format!("chgq {version} {} {ops}", changes.len()).trim_end().to_string());
-                if let EdState::Open(e, _) = &ed {
-                    gen_buf = e.clone();
-                }
-                continue;
-            }
-            lines.push(format!("chg {version} {} {ops}", changes.len()).trim_end().to_string());
-            server = doc_state(&mut l, &uri)?;
-            lines.push(impl_line(&server, &ed));
-            // next change is generated against the editor's buffer, or, once the editor-side
-            // specification is undefined, against the server's text
-            gen_buf = match (&ed, &server) {
-                (EdState::Open(e, _), _) => e.clone(),
-                (_, Some((t, _))) => Editor::from_str(t),
-                _ => gen_buf,
-            };
-            // mid-session token tie now and then
-            if plan.fixed.is_none() && r.chance(1, 8) {
-                if let Some((t, _)) = &server {
-                    let a = ask_all(&mut l, &uri, plan.pull)?;
-                    token_ops(lines, stats, t, &a, r);
-                }
+    // the workspace as the server finds it
+    let mut ws = None;
+    if let (Some(root), Some(disk)) = (root, &plan.disk) {
+        let mut w = Ws { root: root.to_path_buf(), main: None, siblings: vec![None, None] };
+        if let Some(text) = disk {
+            w.write_main(text);
+        }
+        for j in 0..w.siblings.len() {
+            if plan.fixed.is_some() || r.chance(3, 4) {
+                let text = sibling_text(j, if plan.fixed.is_some() { 0 } else { r.below(9) });
+                std::fs::write(w.sibling_path(j), &text).expect("write sibling");
+                w.siblings[j] = Some(text);
             }
         }
-        if nontrivial {
-            lines.push("tag nontrivial".into());
-        }
-        if astral {
-            lines.push("tag astral-before-edit".into());
-        }
-        if lone_cr_seen {
-            lines.push("tag lonecr-seen".into());
-        }
-
-        // ---- end of history: answers of the incremental session --------------------------------
-        let Some((server_text, server_version)) = server.clone() else { return Ok(()) };
-        let inc = ask_all(&mut l, &uri, plan.pull)?;
-        token_ops(lines, stats, &server_text, &inc, r);
-        // the reference text: the editor's buffer; the server's own text once the editor-side
-        // specification is undefined (then only the statelessness of the analysis is checked)
-        let reference = match &ed {
-            EdState::Open(e, _) => e.clone(),
-            _ => Editor::from_str(&server_text),
-        };
-        let differs = match &ed {
-            EdState::Open(e, v) => e.text() != server_text || *v as i64 != server_version,
-            _ => false,
-        };
-        if differs {
-            // already reported by `ed=differ`; every answer oracle would only repeat it
-            lines.push("# oracle answers skipped text-differs".into());
-            return Ok(());
-        }
-        if reference.has_lone_cr() {
-            lines.push("# oracle answers skipped lone-cr".into());
-        } else {
-            answer_oracles(lines, stats, &reference, &inc);
-            position_request_oracles(&mut l, &uri, lines, stats, &reference, &inc, r)?;
-        }
-        // ---- fresh server with the reference text in one didOpen -------------------------------
-        let mut f = lsp::Lsp::start(bin, plan.pull)?;
-        let fres = (|| -> Result<Answers, String> {
-            f.notify(
-                "textDocument/didOpen",
-                json!({"textDocument": {"uri": uri, "languageId": "structured-text", "version": server_version, "text": reference.text()}}),
-            )?;
-            ask_all(&mut f, &uri, plan.pull)
-        })();
-        f.stop();
-        let fresh = fres?;
-        let mut pairs = vec![
-            ("symbols", &inc.symbols, &fresh.symbols),
-            ("tokens", &inc.tokens, &fresh.tokens),
-            ("diagnostics", &inc.diagnostics, &fresh.diagnostics),
-            ("formatting", &inc.formatting, &fresh.formatting),
-        ];
-        for ((name, x), (_, y)) in inc.extras.iter().zip(fresh.extras.iter()) {
-            pairs.push((*name, x, y));
-        }
-        for (name, x, y) in pairs {
-            if x == y {
-                lines.push(format!("# oracle fresh-{name} ok"));
-            } else {
-                lines.push(format!("# oracle fresh-{name} FAIL incremental={} fresh={}", short(x), short(y)));
-            }
-        }
-        Ok(())
-    })();
-    l.stop();
+        ws = Some(w);
+    }
+    let uri = match &ws {
+        Some(w) => format!("file://{}", w.main_path().display()),
+        None => format!("file:///c14/case{n}.st"),
+    };
+    let root_str = root.map(|p| p.display().to_string());
+    let l = lsp::Lsp::start(bin, plan.pull, root_str.as_deref())?;
+    let mut s = Sess {
+        l,
+        uri: uri.clone(),
+        lines,
+        stats,
+        ed: EdState::Closed,
+        server: None,
+        gen_buf: Editor::from_str(&plan.text),
+        ws,
+        lone_cr_seen: false,
+        deleted_while_open: false,
+    };
+    let result = drive(bin, plan, root_str.as_deref(), r, &mut s);
+    s.l.shutdown();
     result
+}
+
+fn drive(bin: &str, plan: &Plan, root: Option<&str>, r: &mut Rng, s: &mut Sess) -> Result<(), String> {
+    let mut version = plan.version;
+    // what the start-up indexing pass made of the document's file
+    if let Some(Some(disk)) = &plan.disk {
+        s.lines.push(format!("wchg {}", hex(disk.as_bytes())));
+        s.observe()?;
+    }
+    s.open(&plan.text, version)?;
+    let mut nontrivial = false;
+    let mut astral = false;
+    let mut after_undefined = 0;
+    let workspace = s.ws.is_some();
+
+    for k in 0..plan.notes {
+        if let Some(steps) = &plan.fixed {
+            match &steps[k as usize] {
+                Step::Change(c) => {
+                    version += 1;
+                    s.change(c, version, false)?;
+                }
+                Step::Save => s.save(true)?,
+                Step::Rewrite(t) => s.rewrite(t, None)?,
+                Step::Delete => s.delete(None)?,
+                Step::Spurious => s.spurious()?,
+                Step::Close => s.close()?,
+                Step::Open(t) => {
+                    version += 1;
+                    s.open(t, version)?;
+                }
+            }
+            continue;
+        }
+        // once the editor-side specification is undefined only the model tie is left: two more
+        // notifications (does a rejected change leave the document usable?) and stop
+        if matches!(s.ed, EdState::Undefined) {
+            after_undefined += 1;
+            if after_undefined > 2 && !plan.burst {
+                break;
+            }
+        }
+        // what happens to the files behind the editor's back, and saving
+        if workspace && r.chance(1, 3) {
+            let with = if r.chance(1, 3) { s.sibling_event(r) } else { None };
+            let open = matches!(s.ed, EdState::Open(..));
+            match r.below(20) {
+                0..=7 => {
+                    // another tool rewrites the file: a variant of the buffer, or something else
+                    let mut kd: &'static str = "";
+                    let text = match r.below(3) {
+                        0 => gen_text(r, plan.cat, plan.eol, &mut kd),
+                        1 => format!("{}(* rewritten on disk {} *)\n", s.gen_buf.text(), uni1(r, plan.cat)),
+                        _ => format!("(* 😀 *) PROGRAM OnDisk{}\nVAR q : INT; END_VAR\nq := undefined_on_disk;\nEND_PROGRAM\n", r.below(9)),
+                    };
+                    s.rewrite(&text, with)?;
+                }
+                8..=12 => {
+                    // every change on disk is reported by the watcher
+                    if let Some(ev) = with {
+                        s.watched(&[ev])?;
+                    }
+                    if open {
+                        s.save(r.chance(4, 5))?;
+                        // a formatter / generator run on save rewrites the file right away
+                        if r.chance(1, 3) {
+                            let text = format!("{}(* touched after save {} *)\n", s.gen_buf.text(), r.below(99));
+                            s.rewrite(&text, None)?;
+                        }
+                    } else {
+                        s.spurious()?;
+                    }
+                }
+                13 | 14 => {
+                    if let Some(ev) = with {
+                        s.watched(&[ev])?;
+                    }
+                    s.spurious()?
+                }
+                15 => {
+                    // deleting the file of an OPEN document: known finding, kept rare
+                    if s.ws.as_ref().is_some_and(|w| w.main.is_some()) && (!open || r.chance(1, 4)) {
+                        s.delete(with)?;
+                    } else if let Some(ev) = with {
+                        s.watched(&[ev])?;
+                    }
+                }
+                _ => {
+                    // only sibling files change
+                    let ev: Vec<(String, u8)> = with.into_iter().chain(s.sibling_event(r)).collect();
+                    if !ev.is_empty() {
+                        s.watched(&ev)?;
+                        // the document itself must not move
+                        s.lines.push("wchg !".into());
+                        s.observe()?;
+                    }
+                }
+            }
+            if r.chance(1, 3) {
+                s.token_tie(plan.pull, r)?;
+            }
+        }
+        // close / re-open now and then
+        if r.chance(1, if workspace { 15 } else { 40 }) {
+            s.close()?;
+            // a closed document takes the disk text
+            if workspace && r.chance(1, 2) {
+                let mut kd: &'static str = "";
+                let text = gen_text(r, plan.cat, plan.eol, &mut kd);
+                s.rewrite(&text, None)?;
+            }
+            if r.chance(7, 8) {
+                let mut kd: &'static str = "";
+                // re-open: the file's content (what an editor shows), the old buffer, or a new text
+                let text = match (r.below(3), s.ws.as_ref().and_then(|w| w.main.clone())) {
+                    (0, Some(disk)) | (1, Some(disk)) => disk,
+                    (0, None) => s.gen_buf.text(),
+                    _ => gen_text(r, plan.cat, plan.eol, &mut kd),
+                };
+                version = if r.bool() { 1 } else { version.wrapping_add(1) };
+                s.open(&text, version)?;
+                s.stats.push("ev-reopen:1".into());
+            } else {
+                s.stats.push("ev-change-after-close:1".into());
+            }
+        }
+        // one didChange notification
+        let mut changes: Vec<Chg> = Vec::new();
+        let nch = if r.chance(1, 300) { 0 } else if r.chance(7, 10) { 1 } else { 2 + r.below(3) };
+        let mut scratch = s.gen_buf.clone();
+        for _ in 0..nch {
+            let (c, validity, kind) = gen_change(r, &scratch, plan.cat, plan.eol, !plan.burst);
+            s.stats.push(format!("{kind}:1"));
+            let stop = validity != Validity::Valid;
+            if let Chg::Range { sl, sc, .. } = &c {
+                if validity == Validity::Valid {
+                    if let Some((st, _, _)) = scratch.lines().get(*sl as usize) {
+                        let before = &scratch.u[*st..*st + *sc as usize];
+                        if before.iter().any(|&x| x >= 0x80) {
+                            nontrivial = true;
+                        }
+                        if before.iter().any(|&x| (0xD800..0xE000).contains(&x)) {
+                            astral = true;
+                        }
+                    }
+                }
+            }
+            let ok = editor_apply(&mut scratch, std::slice::from_ref(&c));
+            changes.push(c);
+            if stop || !ok {
+                break;
+            }
+        }
+        version = match r.below(12) {
+            0 => version,
+            1 => version.wrapping_add(1 + r.below(1000) as i32),
+            _ => version.wrapping_add(1),
+        };
+        let quiet = plan.burst && k + 1 < plan.notes;
+        s.change(&changes, version, quiet)?;
+        if quiet {
+            continue;
+        }
+        // mid-session token tie now and then
+        if r.chance(1, 8) {
+            s.token_tie(plan.pull, r)?;
+        }
+    }
+    // half of the workspace histories end with a disk event, so that the final answers are asked
+    // while the file and the buffer differ and no edit has come since
+    if workspace && plan.fixed.is_none() && matches!(s.ed, EdState::Open(..)) && r.chance(1, 2) {
+        let text = format!("(* 😀 *) PROGRAM OnDiskLast\nVAR q : INT; END_VAR\nq := undefined_on_disk_{};\nEND_PROGRAM\n", r.below(9));
+        let with = if r.chance(1, 3) { s.sibling_event(r) } else { None };
+        s.rewrite(&text, with)?;
+    }
+    if nontrivial {
+        s.lines.push("tag nontrivial".into());
+    }
+    if astral {
+        s.lines.push("tag astral-before-edit".into());
+    }
+    if s.lone_cr_seen {
+        s.lines.push("tag lonecr-seen".into());
+    }
+    if s.deleted_while_open {
+        s.lines.push("tag deleted-while-open".into());
+    }
+
+    // ---- end of history: answers of the incremental session ------------------------------------
+    let Some((server_text, server_version)) = s.server.clone() else { return Ok(()) };
+    let inc = ask_all(&mut s.l, &s.uri, plan.pull)?;
+    token_ops(s.lines, s.stats, &server_text, &inc, r);
+    // the reference text: the editor's buffer; the server's own text once the editor-side
+    // specification is undefined or the editor has closed the document (then only the
+    // statelessness of the analysis is checked)
+    let reference = match &s.ed {
+        EdState::Open(e, _) => e.clone(),
+        _ => Editor::from_str(&server_text),
+    };
+    let differs = match &s.ed {
+        EdState::Open(e, v) => e.text() != server_text || *v as i64 != server_version,
+        _ => false,
+    };
+    if differs {
+        // already reported by `ed=differ`; every answer oracle would only repeat it
+        s.lines.push("# oracle answers skipped text-differs".into());
+        return Ok(());
+    }
+    if reference.has_lone_cr() {
+        s.lines.push("# oracle answers skipped lone-cr".into());
+    } else {
+        answer_oracles(s.lines, s.stats, &reference, &inc);
+        let uri = s.uri.clone();
+        position_request_oracles(&mut s.l, &uri, s.lines, s.stats, &reference, &inc, r)?;
+    }
+    // ---- fresh server: same files on disk, the reference text in one didOpen -------------------
+    if let Some(root) = root {
+        // the incremental server is done; its index cache must not feed the fresh one
+        s.l.shutdown();
+        let _ = std::fs::remove_dir_all(std::path::Path::new(root).join(".trust-lsp"));
+    }
+    let mut f = lsp::Lsp::start(bin, plan.pull, root)?;
+    let fres = (|| -> Result<Answers, String> {
+        f.notify(
+            "textDocument/didOpen",
+            json!({"textDocument": {"uri": s.uri, "languageId": "structured-text", "version": server_version, "text": reference.text()}}),
+        )?;
+        ask_all(&mut f, &s.uri, plan.pull)
+    })();
+    f.stop();
+    let fresh = fres?;
+    let mut pairs = vec![
+        ("symbols", &inc.symbols, &fresh.symbols),
+        ("tokens", &inc.tokens, &fresh.tokens),
+        ("diagnostics", &inc.diagnostics, &fresh.diagnostics),
+        ("formatting", &inc.formatting, &fresh.formatting),
+    ];
+    for ((name, x), (_, y)) in inc.extras.iter().zip(fresh.extras.iter()) {
+        pairs.push((*name, x, y));
+    }
+    for (name, x, y) in pairs {
+        if x == y {
+            s.lines.push(format!("# oracle fresh-{name} ok"));
+        } else {
+            s.lines.push(format!("# oracle fresh-{name} FAIL incremental={} fresh={}", short(x), short(y)));
+        }
+    }
+    Ok(())
 }
 
 pub fn run(args: &Args) -> i32 {
